@@ -52,10 +52,11 @@ EmitPre ==
 
 \* the same selections with the document given as JSON text (the convenience functions accept it)
 TextSel(s) == [rp |-> <<IF s.a.path = <<Root>> THEN 3 ELSE 1>>, fl |-> FL] @@ s
-EmitText ==
+EmitText0 ==
   \/ \E ss \in UNION {[1..k -> NavSteps] : k \in 0..1} : Out(TextSel(Sel(<<Root>> \o ss, doc, NoArg)))
   \/ \E ss \in {<<BrW, BrW>>, <<BrW, Dot(ka)>>, <<BrW, FilterSt(c1)>>, <<FilterSt(c2)>>, <<DotW, BrW>>} : Out(TextSel(Sel(<<Root>> \o ss, doc, NoArg)))
   \/ \E e \in {EExists(<<Root, BrW>>), EBin("gt", EPaths(<<Root, BrW>>), EVal(PNum(u1)))} : Out(TextSel(Sel(<<Pred(e)>>, doc, NoArg)))
+EmitText == ~HasNonFinite(doc) /\ EmitText0
 
 Emit ==
   /\ stage = "doc"
